@@ -153,7 +153,15 @@ Definition parse_obs (ops : list op) (l : list tok) : option (objobs * list step
   end.
 
 (* ------------------------------------------------------------ entry points *)
+(* PURITY <members> <threads> <rounds> <iters> : a purity-probe case (tools/purity.py sends it to the TSan probe) *)
+Definition is_purity_case (l : list tok) : bool :=
+  match l with
+  | [t; TZ _; TZ _; TZ _; TZ _] => is_tag "PURITY" t
+  | _ => false
+  end.
+
 Definition run_model (l : list tok) : list tok :=
+  if is_purity_case l then [tag "PURE"] else
   match parse_case l with
   | Some (h, ops) => match model_case h ops with
                      | Some (o0, rs) => print_obs o0 rs
@@ -163,6 +171,7 @@ Definition run_model (l : list tok) : list tok :=
   end.
 
 Definition run_spec (l obs : list tok) : list tok :=
+  if is_purity_case l then spec_purity_ok obs else
   match parse_case l with
   | Some (h, ops) => match parse_obs ops obs with
                      | Some (o0, rs) => spec_case h ops o0 rs
@@ -228,6 +237,7 @@ Fixpoint best_event (objs : list tstate) (ops : list op) (best : nat * string) :
   end.
 
 Definition run_tag (l : list tok) : list tok :=
+  if is_purity_case l then [tag "purity_probe"] else
   match parse_case l with
   | Some (h, ops) =>
       match model_case h ops with
